@@ -25,6 +25,10 @@ CHECKS = {
    text="Complete enumeration of a declared lattice through the real receive path: 9 area centres (all four hemispheres, equator/prime-meridian neighbourhood, 80 N, across the 180 degree meridian) x circle/rectangle/ellipse x GBC/GAC x semi-axis pairs from 1 m to 65535 m x 8 azimuths x 16 bearings x 8 radius factors around the border; each point is a crafted packet injected into a real router placed at that point, and the delivery decision is compared with an independent tangent-plane implementation of EN 302 931 with azimuth rotation (tolerance band and projection disagreement excluded and counted). Plus area-size control at source and forwarder around the itsGnMaxGeoAreaSize thresholds (1/10/80 km2) and the Annex D selection (area / non-area / discard) observed at a CBF forwarder for ego and sender inside/outside x PAI x rotated shapes.",
    note="Trusted: CPython, mc/ref/geo_area.py, reference codec. The continuous plane between lattice points is not covered; sender = source (link layer does not expose the previous hop).",
    technique="exhaustive finite-lattice enumeration through the real receive path against a reference geometry"),
+ "C01": dict(level="model_checking", design="3/C01",
+   text="Explicit-state BFS over event histories of three real stations (GeoNetworking + BTP routers on an in-memory ether; A sends, B is addressed, C lies outside the destination area): up to three requests of every transport type (SHB, GBC, GAC, GUC with and without a pending location-service lookup), every delivery order of the pending frames, an unrelated reception at the sender, a destination beacon, location-service timer expiries and an ego-position refresh. After EVERY transition a copy of the world is run to quiescence and every request must have reached exactly the addressed port handler once, byte-identical, in request order, with the sender's position vector, transport type and port information, and nobody else. Plus complete two-station sweeps: ports x BTP-A/B (boundary classes quick, all 65536 thorough), every payload byte value, lengths around the MTU, all 256 traffic classes and hop limits, and a placement lattice of 7x7 positions over both hemispheres x 8 receiver offsets x 3 shapes x SIMPLE/CBF.",
+   note="Trusted: CPython, deepcopy snapshots cross-checked by history replay, the delivery oracle in mc/checks/c01.py. Order is judged per transport kind. <=3 requests, depth 5-7 (7-9 thorough). Secured end-to-end delivery is exercised by C03/C05 for the CAM/DENM profiles; other profiles with security on are outside this check (see DESIGN.md).",
+   technique="explicit-state BFS over real objects with run-to-quiescence oracle on every state + exhaustive configuration lattices"),
 }
 
 NOT_APPLICABLE = {}
